@@ -54,6 +54,7 @@ ASSUME = [
 ]
 
 UNKNOWN = int("f" * 32, 16)
+STATS = {"cleanup:idle==limit(boundary)": 0, "cleanup:idle>limit": 0, "cleanup:idle<limit": 0}
 
 
 # --------------------------------------------------------------------------- #
@@ -308,6 +309,11 @@ def run_history(hist):
     for now, op in hist:
         CLOCK.now = now
         fresh_id = IDS.n
+        if op[0] == "cleanup":
+            for sess in w.mgr.sessions.values():
+                d = now - sess.last_activity
+                STATS["cleanup:idle==limit(boundary)" if d == op[1] else
+                      ("cleanup:idle>limit" if d > op[1] else "cleanup:idle<limit")] += 1
         try:
             res = apply_op(w, op)
             snap = snapshot(w.mgr.sessions)
@@ -470,15 +476,16 @@ def explore(ctx, model, spec):
         ctx.count(f"{kind}:len{n if n < 6 else ('6-20' if n <= 20 else ('21-100' if n <= 100 else '101+'))}")
         for t, op in hist[:n]:
             ctx.count("op:" + op[0])
+        ctx.count("read-only-tail-observations", len(hist) - n)
         if len(batch) >= 4000:
             flush()
 
     for hist, n in exhaustive(ctx, depth):
         feed(hist, n, "exhaustive")
     flush()
-    # one level deeper over the 7 core operations (only the new, longest sequences)
-    for hist, n in exhaustive(ctx, depth + 1, core_alphabet()):
-        if n == depth + 1:
+    # two levels deeper over the 7 core operations (only the new, longer sequences)
+    for hist, n in exhaustive(ctx, depth + 2, core_alphabet()):
+        if n > depth:
             feed(hist, n, "exhaustive-core")
     flush()
     for hist, n in seeded(ctx, ctx.budget(400, 6000), 200):
@@ -488,6 +495,10 @@ def explore(ctx, model, spec):
     b = spec.run([call(3, "130", "20", "110"), call(3, "131", "20", "110"), call(3, "130", "20", "111")])
     if [bool(x) for x in b] != [False, True, False]:
         raise lib.HarnessError("spec boundary self-check failed")
+    for k, v in STATS.items():
+        ctx.count(k, v)
+    if not STATS["cleanup:idle==limit(boundary)"]:
+        raise lib.HarnessError("the boundary now - last = max_age was never exercised")
     ctx.extra["exhaustive_depth"] = depth
     ctx.extra["alphabet"] = len(alphabet())
 
@@ -514,7 +525,7 @@ def run(ctx):
         lib.coqchk(ctx, "C19")
     ctx.exhaustive = True
     ctx.rule = ("exhaustive: ALL sequences of length <= depth (quick 4, thorough/escalated 5) over 14 state-changing operations, plus all "
-                "sequences of length depth+1 over the 7 core ones {create, touch 0, delete 0, cleanup x2, initialize, ping}, on a "
+                "sequences of length depth+1 and depth+2 over the 7 core ones {create, touch 0, delete 0, cleanup x2, initialize, ping}, on a "
                 "3-session universe {create, touch 0/1/2, delete 0/1/2, cleanup(10), cleanup(20), clear, initialize request (unsupported version) with "
                 "session 0, id-less initialize, ping with session 1, response-shaped message with "
                 "session 0}, one operation every 10 time units so that both cleanup limits meet now - last = max_age exactly; after "
